@@ -413,7 +413,12 @@ class G(object):
             a, b = self.two(ty, d1)
             return app(kind.upper(), a, b)
         if kind == "pow":
-            return app("POW", T(ty, d1), const(ty, Fraction(self.i(4)) if ty == REAL else self.i(4)))
+            # Pow(base, constant exponent) : Real, for Int or Real bases (pySMT's typing rule)
+            bt = INT if (self.cfg.has("int") and self.pct(40)) else REAL
+            e = self.choice([-2, -1, 0, 1, 2, 2, 3, 3, 5])
+            if bt == REAL and self.pct(8):
+                return app("POW", T(bt, d1), const(bt, Fraction(self.choice([1, 3, -1]), 2)))
+            return app("POW", T(bt, d1), const(bt, Fraction(e) if bt == REAL else e))
         if kind == "toreal":
             return app("TOREAL", T(INT, d1))
         if kind == "bv2nat":
